@@ -207,7 +207,3 @@ def run(ctx):
 def search(ctx):
     return run(ctx)
 
-
-def replay(ctx, path):
-    print(open(path).read()[:4000])
-    return 0
